@@ -74,7 +74,7 @@ def build_coq(pid: str | None = None, timeout: int = 1500) -> tuple[bool, str]:
     The whole tree is built with `make -k`; the verdict for property `pid` is whether ITS
     targets (Props/<pid>.vo and Corr/<pid>.vo with everything they depend on) build."""
     COQ.mkdir(exist_ok=True)
-    lock = open(COQ / ".lock", "w")
+    lock = open(COQ / ".lock", "a")
     fcntl.flock(lock, fcntl.LOCK_EX)
     try:
         files = sorted(str(p.relative_to(COQ)) for p in THEORIES.rglob("*.v"))
@@ -99,6 +99,21 @@ def build_coq(pid: str | None = None, timeout: int = 1500) -> tuple[bool, str]:
     finally:
         fcntl.flock(lock, fcntl.LOCK_UN)
         lock.close()
+
+
+class coq_read_lock:
+    """Shared lock on the compiled tree: held while .vo files are read (Print Assumptions, case
+    files), so that a concurrent check's `make` (exclusive lock) cannot rewrite them underneath."""
+
+    def __enter__(self):
+        COQ.mkdir(exist_ok=True)
+        self.f = open(COQ / ".lock", "a")
+        fcntl.flock(self.f, fcntl.LOCK_SH)
+        return self
+
+    def __exit__(self, *a):
+        fcntl.flock(self.f, fcntl.LOCK_UN)
+        self.f.close()
 
 
 def theorem_names(pid: str) -> list[str]:
@@ -287,7 +302,7 @@ class Result:
 def write_replay(pid: str, name: str, payload: dict) -> Path:
     d = WORK / "replay"
     d.mkdir(parents=True, exist_ok=True)
-    p = d / f"{pid}-{name}.json"
+    p = d / f"{pid}-{os.getpid()}-{name}.json"
     p.write_text(json.dumps(payload, indent=1, default=str))
     return p
 
@@ -308,7 +323,11 @@ def run_property(mod, tier: str, seed: int, replay: str | None = None) -> int:
         ok, log = build_coq(pid)
         forb = forbidden_scan()
         thms = theorem_names(pid)
-        assum = assumptions(pid, workdir) if ok else {n: "ERROR: development does not build" for n in thms}
+        if ok:
+            with coq_read_lock():
+                assum = assumptions(pid, workdir)
+        else:
+            assum = {n: "ERROR: development does not build" for n in thms}
         discharged = [n for n in thms if axioms_ok(assum.get(n, "ERROR"))] if (ok and not forb) else []
         proof_broken = (not ok) or bool(forb) or len(discharged) != len(thms) or not thms
         if not ok:
@@ -355,8 +374,9 @@ def run_property(mod, tier: str, seed: int, replay: str | None = None) -> int:
         # ---- 4. correspondence: model (inside Coq) vs implementation
         terms = [mod.emit(c, o) for c, o in zip(all_cases, all_obs)]
         if ok:
-            disagree, errs = coq_eval(workdir, pid, mod.PRELUDE, mod.FAILING, terms,
-                                      shard=getattr(mod, "SHARD", 400))
+            with coq_read_lock():
+                disagree, errs = coq_eval(workdir, pid, mod.PRELUDE, mod.FAILING, terms,
+                                          shard=getattr(mod, "SHARD", 400))
         else:
             disagree, errs = [], ["development does not build; correspondence not evaluated"]
         corr_broken = bool(errs)
